@@ -15,7 +15,6 @@ Definition command_eqb (a b : command) : bool :=
   match a, b with
   | CmdInvalid, CmdInvalid => true
   | Cmd t n l, Cmd t' n' l' => bytes_eqb t t' && bytes_eqb n n' && eqb_list argval_eqb l l'
-  | CmdRaises k, CmdRaises k' => k =? k'
   | _, _ => false
   end.
 
